@@ -1,0 +1,25 @@
+//go:build verif
+
+package animation
+
+import "bytes"
+
+// VerifCloseCandidates returns the inputs of AnimEncoder.Close's output selection
+// without writing anything or closing the encoder (for the /verif harness, C15):
+// the muxer's animated assembly, what SimpleEncodeFunc returns for the single
+// canvas (ok=false if it is not applicable or failed), the frame count, whether
+// a previous canvas exists and whether any metadata blob is set.  Add-only.
+func (e *AnimEncoder) VerifCloseCandidates() (animData, simpleData []byte, simpleOK bool, frameCount int, hasPrev, hasMeta bool, err error) {
+	var animBuf bytes.Buffer
+	if err = e.muxer.Assemble(&animBuf); err != nil {
+		return nil, nil, false, e.frameCount, e.prevCanvas != nil, e.hasICC || e.hasEXIF || e.hasXMP, err
+	}
+	animData = animBuf.Bytes()
+	if e.prevCanvas != nil && SimpleEncodeFunc != nil {
+		s, serr := SimpleEncodeFunc(e.prevCanvas, e.opts.Lossless, float32(e.opts.Quality))
+		if serr == nil {
+			simpleData, simpleOK = s, true
+		}
+	}
+	return animData, simpleData, simpleOK, e.frameCount, e.prevCanvas != nil, e.hasICC || e.hasEXIF || e.hasXMP, nil
+}
